@@ -1,5 +1,6 @@
 """C09 — Delay and cancel requests affect only the coroutine that made them (structural clauses)."""
 from rules.common import start
+from rules import wave2
 from rules import coro, pool
 
 
@@ -15,4 +16,7 @@ def run(tier):
         coro.drain_rule(run, f, "C09-DRAIN")
         coro.push_yield_rule(run, f, "C09-PUSH-YIELD")
     pool.identity_rule(run, fx["core/default"], "C09-SIGNAL-IDENTITY")
+    # clauses added for the wave-2 seeds (rules/wave2.py; DESIGN 12a)
+    for _cfg, f in fx.items():
+        wave2.request_pairing_rule(run, f, "C09-REQUEST-PAIRING")
     return run.finish()
